@@ -10,7 +10,7 @@ TYPES = ['scalar', 'edwards', 'cedwards', 'ristretto', 'cristretto', 'montgomery
          'xpublic', 'xstatic']
 BYTES_STYLE = {'signingkey', 'verifyingkey'}     # serialize_bytes (length-prefixed in bincode)
 REQUIRED = ['rt:' + t for t in TYPES] + ['reject:noncanon-scalar', 'reject:invalid-edwards', 'reject:invalid-ristretto',
-                                         'reject:short', 'reject:long', 'reject:wrong-type', 'xstatic:unclamped']
+                                         'reject:short', 'reject:long', 'reject:wrong-type', 'xstatic:unclamped', 'inplace']
 
 
 def native_accepts(ty, b):
@@ -46,6 +46,19 @@ def json_of(b):
 DERIVED_NEWTYPES = ('montgomery', 'xpublic', 'xstatic')
 
 
+_PK = {}
+
+
+def shown(ty, canon):
+    """what the driver prints for a decoded value: its canonical bytes; for a SigningKey both halves of the keypair, so
+    that the public half a deserialiser leaves behind is judged too"""
+    if ty != 'signingkey':
+        return canon
+    if canon not in _PK:
+        _PK[canon] = ref.ed_public(canon)
+    return canon + _PK[canon]
+
+
 def dej(ctx, ty, raw, expect, cls):
     """the byte sequence `raw` offered as a sequence in each shape a data format may give it: JSON text (no size
     hint), serde_json::Value and a plain SeqDeserializer (exact size hints)"""
@@ -54,6 +67,15 @@ def dej(ctx, ty, raw, expect, cls):
     ctx.add('sd.de', ty, 'jsonvalue', j, expect=expect, cls=cls)
     if ty not in DERIVED_NEWTYPES:
         ctx.add('sd.de', ty, 'seqhint', hx(raw), expect=expect, cls=cls)
+
+
+def native_value(rng, ty):
+    """some valid native value of the type (the one an in-place deserialisation overwrites)"""
+    for _ in range(64):
+        b, c = value_for(rng, ty)
+        if native_accepts(ty, b) is not None:
+            return b
+    return bytes(size(ty))
 
 
 def value_for(rng, ty):
@@ -95,8 +117,12 @@ def gen(ctx, n):
             if canon is not None:
                 # serialise(v) is the canonical encoding (+ framing) and deserialise(serialise(v)) == v
                 cb, cj = bincode_of(ty, canon), json_of(canon)
-                ctx.add('sd.rt', ty, b.hex(), expect=[canon.hex(), cb.hex(), cj.hex(), canon.hex(), canon.hex(), canon.hex()],
-                        cls=['rt:' + ty, c])
+                sh = shown(ty, canon).hex()
+                ctx.add('sd.rt', ty, b.hex(), expect=[sh, cb.hex(), cj.hex(), sh, sh, sh], cls=['rt:' + ty, c])
+                # the same payloads decoded *in place* over a different existing value must leave exactly that value
+                other = native_value(rng, ty)
+                for fmt, p in (('bin', cb), ('json', cj)):
+                    ctx.add('sd.inplace', ty, fmt, p.hex(), other.hex(), expect=['ok', sh], cls=['inplace', 'rt:' + ty])
             else:
                 ctx.add('sd.rt', ty, b.hex(), expect=['native-reject'], cls=[c])
             # deserialisers applied to the raw candidate: accept set equals the native decoder's
@@ -104,7 +130,7 @@ def gen(ctx, n):
                 if fmt == 'seqhint' and ty in DERIVED_NEWTYPES:
                     continue
                 if canon is not None:
-                    ctx.add('sd.de', ty, fmt, p.hex(), expect=['ok', canon.hex()], cls=['de:' + ty, c])
+                    ctx.add('sd.de', ty, fmt, p.hex(), expect=['ok', shown(ty, canon).hex()], cls=['de:' + ty, c])
                 else:
                     ctx.add('sd.de', ty, fmt, p.hex(), expect=['err'], cls=['de:' + ty, c])
             # length violations where the format conveys length
